@@ -246,8 +246,12 @@ func c20run(r *kernel.Run, seed uint64) {
 	// bytes that do not hash to the identifier they are filed under are never accepted (enumeration; the sampled
 	// "flip-entry" fault below takes the same alteration through the whole restore)
 	swept := 0
+	sweepLimit := 0
+	if s.r.Choose(6) == 0 { // one case in six: the enumeration costs more than the rest of the case
+		sweepLimit = 2
+	}
 	for _, m := range members {
-		if !strings.HasPrefix(m.hdr.Name, exportOrbitDBEntriesPrefix) || swept >= 3 {
+		if !strings.HasPrefix(m.hdr.Name, exportOrbitDBEntriesPrefix) || swept >= sweepLimit {
 			continue
 		}
 		swept++
